@@ -14,6 +14,7 @@ import Golib.Proof.C04Handles
 import Golib.Proof.C04HeapSpec
 import Golib.Proof.C04Generic
 import Golib.Proof.C04SliceSeq
+import Golib.Proof.C04Client
 
 namespace Golib.C04
 
@@ -279,6 +280,30 @@ theorem c04_popall_interrupted {cmp} (hs : SWO cmp) :
       ∃ m' es, HMem.popAllK (st.cmp h.val) h.val k st.m = some (m', es) ∧ PopsOK s h k es ∧
         Rel { st with m := m' } (specPops s h es)) :=
   ⟨slice_popAllK hs, slice_popAllN_is_pops cmp, fun h k st s R => rel_popAllK h k st s R⟩
+
+/-- The client that keeps `iter.Seq` values and struct copies around (`COp`, `stepC`: the function
+the oracle runs for the heap driver), along EVERY sequence of client ops:
+* `q := h.PopAll()` (`seq`) touches nothing;
+* ranging a held `q` (`range slot k` / `rangeAll slot`) — whenever `q` was obtained: before
+  pushes, removals, an early break of an earlier range of the same `q`, a re-`Init` with another
+  comparator — is exactly `popAllN h k` / `popAll h` on the CURRENT state of its heap (`CPost`:
+  same state change and result as `stepH` for that op, allowed by the spec); the result is a
+  function of the current abstract state only;
+* `c := *h; c.Remove(e)` / `c.Fix(e)` (`copyRemove`/`copyFix`) for ANY handle `e` change nothing:
+  a struct copy is another heap object, so every element is foreign to it;
+* every other op is its `HOp` (`c04_heap_handles`); `Rel` — heap order, exact indices and owners,
+  detached elements at −1 — holds after every client op. -/
+theorem c04_client_handles :
+    (∀ cmp, SWO cmp → ∀ ops, CSteps ops ⟨HState.zero cmp, []⟩ (HSpec.zero cmp)) ∧
+    (∀ ops (c : HClient) s, Rel c.st s → CSteps ops c s) ∧
+    (∀ (c : HClient) s, Rel c.st s → ∀ (h : Fin 2) e,
+      stepC c (.copyRemove h e) = some (c, .unit) ∧ stepC c (.copyFix h e) = some (c, .unit)) := by
+  refine ⟨fun cmp hs ops => client_steps ops _ _ (rel_zero hs), fun ops c s R => client_steps ops c s R, ?_⟩
+  intro c s R h e
+  have hf : c.st.m.own.get e ≠ some (h.val + 2) := by
+    intro ho; have := R.ok.core.ownR e _ ho; omega
+  have h1 := heap_handles_ignored (c.st.cmp h.val) c.st.m (h.val + 2) e hf
+  exact ⟨by simp [stepC, h1.1], by simp [stepC, h1.2]⟩
 
 /-- Non-vacuity of `specPre`: after `Push(7)` on heap A returned handle 0 and `Pop` returned it,
 handle 0 is allocated and live nowhere, so `B.PushElement(0)` is a call the client may make; and
